@@ -264,6 +264,7 @@ def run_instance(ctx, sh):
             except (core._Abort, core._Stop, core._Skip):
                 raise
             except Exception as e:
+                core.reraise_if_proxy_limitation(e)
                 ctx.check(False, "C13:never-raises-on-a-partial-frame", f"poll {vi} cut {view}: {e!r}",
                           known_key=KNOWN_XYZ if fmt == "xyz" else None)
                 return
